@@ -31,6 +31,37 @@ let show_state (p : pool) : string =
     (if closed p then "1" else "0"); hex_of_n p.last;
     dash_sp (List.map show_entry reg); dash_sp (List.map show_entry p.pendF); dash_sp (List.map show_entry p.pendR) ]
 
+(* ---- stack of pools ---- *)
+let parse_sop (s : string) : sop =
+  match split_on ' ' s with
+  | ["P1"] -> SPush true
+  | ["P0"] -> SPush false
+  | ["M"; k; fl] -> SMark (n_of_hex k, n_of_hex fl)
+  | ["G"; d; k] -> SGoFin (nat_of_int (int_of_string ("0x" ^ d)), n_of_hex k)
+  | ["RP"] -> SRunPending
+  | ["X0"] -> SExit false
+  | ["X1"] -> SExit true
+  | ["CL"] -> SClose
+  | _ -> failwith ("bad op: " ^ s)
+
+let show_sobs = function
+  | SPushed h -> Printf.sprintf "P%d" (int_of_nat h)
+  | SMarked (h, k, fl) -> Printf.sprintf "M%d:%s:%s" (int_of_nat h) (hex_of_n k) (hex_of_n fl)
+  | SFin (h, k) -> Printf.sprintf "F%d:%s" (int_of_nat h) (hex_of_n k)
+  | SRel (h, k) -> Printf.sprintf "R%d:%s" (int_of_nat h) (hex_of_n k)
+
+let stack_line id ops =
+  let s = ref s0 in
+  List.iter (fun o -> s := sstep !s (parse_sop o)) ops;
+  let evs = List.rev_map show_sobs (!s).strace in
+  let sts = List.map (fun f -> Printf.sprintf "%d|%s" (int_of_nat f.fshare) (show_state f.fpool)) (!s).frames in
+  print_string id; print_char ' ';
+  print_string (match evs with [] -> "-" | l -> String.concat "," l);
+  print_string " S:";
+  print_endline (match sts with [] -> "-" | l -> String.concat "/" l)
+
+let stack_mode = Array.length Sys.argv > 1 && Sys.argv.(1) = "stack"
+
 let () =
   iter_lines (fun line ->
     match String.index_opt line ' ' with
@@ -39,6 +70,7 @@ let () =
       let id = String.sub line 0 i in
       let rest = String.sub line (i + 1) (String.length line - i - 1) in
       let ops = List.filter (fun s -> s <> "") (List.map String.trim (String.split_on_char ';' rest)) in
+      if stack_mode then stack_line id ops else
       let p = ref pool0 in
       let outs = List.map (fun s ->
         let (p', x) = step !p (parse_op s) in
